@@ -355,6 +355,55 @@ def win_slots(ctx, denied):
     ctx.prove(ctx.all(ok), "windows-record-slots", detail=f"denied={denied} slots={slot}")
 
 
+PROCFS_SEM = {"ppid": "parent pid", "rss": "rss", "vms": "vms", "create_time": "create time", "nice": "nice", "num_threads": "no. of threads", "status": "status code", "ttynr": "tty nr",
+              "uid": "real user id", "euid": "effective user id", "gid": "real group id", "egid": "effective group id"}
+
+
+@harness("C20.procfs_slots", quick=[dict(plat_=p_, cred_denied=d) for p_ in ("sunos", "aix") for d in (False, True) if not (p_ == "aix" and d)])
+def procfs_slots(ctx, plat_, cred_denied):
+    """Solaris / AIX: fields of the basic-info and credential records reach the documented named tuples (type and field)"""
+    pkg, PL, mods, lab, family = get(plat_)
+    csrc = "_psutil_sunos.c" if plat_ == "sunos" else "_psutil_aix.c"
+    src = open(os.path.join(REPO, "psutil", csrc)).read()
+    i = src.index("psutil_proc_basic_info(")
+    j = src.index("Py_BuildValue", i)
+    comments = [c.strip() for c in re.findall(r"//\s*([^\n]+)", src[j:src.index(");", j)])]
+    slot = {}
+    for sem, text in PROCFS_SEM.items():
+        if text in comments:
+            slot[sem] = comments.index(text)
+        elif plat_ == "sunos" or sem in ("ppid", "rss", "vms", "create_time", "nice", "num_threads", "status", "ttynr"):
+            raise HarnessError(f"C comment {text!r} not found in {comments}")
+    vals = [ctx.int(f"b{i}", 1, 2**40) for i in range(len(comments))]
+    cred = [ctx.int(f"cr{i}", 1, 2**31) for i in range(6)]
+    rec = list(vals)
+    states = sorted(v for k_, v in vars(PL.cext).items() if k_.startswith("S") and isinstance(v, int) and v in PL.PROC_STATUSES)
+    st = ctx.choice("status", states[:4])
+    rec[slot["status"]] = st
+    lab.answers["proc_basic_info"] = lambda pid, path: tuple(rec)
+
+    def proc_cred(pid, path):
+        if cred_denied:
+            raise PermissionError(errno.EACCES, "denied")
+        return tuple(cred)
+
+    lab.answers["proc_cred"] = proc_cred
+    lab.arm()
+    p = PL.Process(5)
+    V = lambda sem: vals[slot[sem]]     # noqa: E731
+    u, g, mi = p.uids(), p.gids(), p.memory_info()
+    ok = [ctx.eq(p.ppid(), V("ppid")), ctx.eq(mi.rss, V("rss") * 1024), ctx.eq(mi.vms, V("vms") * 1024), ctx.eq(p.create_time(), V("create_time")), ctx.eq(p.num_threads(), V("num_threads")),
+          p.status() == PL.PROC_STATUSES[st], type(mi).__name__ == "pmem"]
+    if plat_ == "sunos":
+        ok.append(ctx.eq(p.nice_get(), V("nice")))
+    if cred_denied:
+        ok += [ctx.eq(u.real, V("uid")), ctx.eq(u.effective, V("euid")), u.saved is None, ctx.eq(g.real, V("gid")), ctx.eq(g.effective, V("egid")), g.saved is None]
+    else:
+        ok += [ctx.eq(u.real, cred[0]), ctx.eq(u.effective, cred[1]), ctx.eq(u.saved, cred[2]), ctx.eq(g.real, cred[3]), ctx.eq(g.effective, cred[4]), ctx.eq(g.saved, cred[5])]
+    ctx.prove(ctx.all(ok), "procfs-record-slots", detail=f"{plat_}: slots {slot}")
+    ctx.prove(type(u).__name__ == "puids" and type(g).__name__ == "pgids", "documented-tuple-types", detail=f"{plat_}: uids() -> {type(u).__name__}, gids() -> {type(g).__name__}")
+
+
 # ---- front end post-processing --------------------------------------------------------------------------------------------
 
 @harness("C20.frontend", quick=[dict(plat_=p) for p in ("windows", "freebsd", "macos")])
